@@ -19,8 +19,9 @@
  *     g_q_size                       number of elements
  *     t is in the heap          <=>  t->priority_queue_node.current_index < g_q_size     ("handles track their element";
  *                                    C06: pop/remove/node_init leave SIZE_MAX in the handle, push_ref a valid slot)
- *     g_q_top                        the slot the next top() call hands out (a minimum, C06) - the storage slot itself,
- *                                    because the scheduler receives a pointer INTO the heap storage
+ *     g_q_top_i                      arena index of the element the next top() call shows (a minimum, C06); top() hands out
+ *                                    &g_q_slot[g_q_top_i] (constant table of the arena addresses), because the
+ *                                    scheduler receives a pointer INTO the heap storage, not the element
  *     g_q_push_fails                 the environment's choice whether the next push_ref is refused
  * Each call leaves a record (g_q_pushed*, g_q_removed*, call counters), so that the scheduler contracts can say WHAT was
  * handed to the queue (this task, this handle, with the time stamp already in place) and how often.
@@ -30,7 +31,7 @@
  * Its PRECONDITION is what the scheduler owes the task function at the moment of the call: the scheduled flag is
  * already cleared and (g_fn_req_detached, set by the scheduler-level units) the task is unlinked from every list and its
  * heap handle says not-in-queue - i.e. the function may re-schedule, re-initialise or release its own task.  The
- * contract havocs the whole task object for the same reason: nothing may be read from it after the call.
+ * contract havocs the whole task object (but the function pointer) for the same reason: nothing may be read from it after the call.
  */
 #ifndef VERIF_CONTRACTS_TASK_SCHEDULER_H
 #define VERIF_CONTRACTS_TASK_SCHEDULER_H
@@ -65,10 +66,14 @@ struct aws_task *g_fn_task;
 void *g_fn_arg;
 int g_fn_status;
 bool g_fn_req_detached;
+bool g_st_bad;
+int g_expect_status;
 
 /* abstract heap + call records */
 size_t g_q_size;
-struct aws_task *g_q_top;
+size_t g_q_top_i;                 /* arena index of the task at the top (meaningful when g_q_size > 0) */
+struct aws_task *g_q_slot[VERIF_TS_K]; /* g_q_slot[i] == &g_tk[i], never written: top() hands out &g_q_slot[g_q_top_i] */
+#define g_q_top (&g_tk[g_q_top_i])
 bool g_q_push_fails;
 size_t g_q_npush, g_q_ntop, g_q_nremove;
 struct aws_task *g_q_pushed;                 /* the element handed to push_ref               */
@@ -98,6 +103,7 @@ bool g_init_fails;
         g_fn_req_detached = false;                                                                                     \
         g_fn_calls = 0; g_q_npush = 0; g_q_ntop = 0; g_q_nremove = 0; g_ra_calls = 0; g_ra_bad = false;                \
         g_ht_calls = 0; g_qc_calls = 0; g_qc_after_pending = false; g_q_removed_ok = false;                            \
+        g_st_bad = false; g_swapped = false; g_moved_any = false; g_moved_timed = 0;                                   \
     } while (0)
 
 /* ---------------------------------------------------------------- places */
@@ -117,6 +123,9 @@ bool g_init_fails;
 #define TS_IN_HEAP(t) (TS_HANDLE(t) < g_q_size)
 #define TS_UNLINKED(t) ((t)->node.next == NULL && (t)->node.prev == NULL && TS_HANDLE(t) == SIZE_MAX)
 
+/* everything of a task except its function pointer (what the task function may rewrite: it may re-schedule the task) */
+#define TS_A_TASK_BUT_FN(t) (t)->arg, (t)->timestamp, (t)->node, (t)->priority_queue_node, (t)->type_tag, (t)->abi_extension
+
 /* ---------------------------------------------------------------- task function (DESIGN §4.6) */
 void ts_task_fn_contract(struct aws_task *task, void *arg, enum aws_task_status status)
 __CPROVER_requires(TS_IS_TASK(task))
@@ -124,7 +133,7 @@ __CPROVER_requires(TS_IS_TASK(task))
 __CPROVER_requires(!TS_SCHEDULED(task))
 /* scheduler-level callers: the task is out of every container when its function runs */
 __CPROVER_requires(g_fn_req_detached ==> TS_UNLINKED(task))
-__CPROVER_assigns(g_fn_calls, g_fn_task, g_fn_arg, g_fn_status, *task)
+__CPROVER_assigns(g_fn_calls, g_fn_task, g_fn_arg, g_fn_status, TS_A_TASK_BUT_FN(task))
 __CPROVER_ensures(g_fn_calls == OLD(g_fn_calls) + 1 && g_fn_task == task && g_fn_arg == arg && g_fn_status == (int)status)
 ;
 aws_task_fn *g_ts_keep_fn = ts_task_fn_contract; /* address taken: required by obeys_contract */
@@ -142,6 +151,8 @@ __CPROVER_requires(1)
 __CPROVER_assigns()
 __CPROVER_ensures(RET == NULL)
 ;
+
+#define TS_SLOTS_OK (g_q_slot[0] == &g_tk[0] && g_q_slot[1] == &g_tk[1] && g_q_slot[2] == &g_tk[2] && g_q_slot[3] == &g_tk[3])
 
 /* ---------------------------------------------------------------- heap: client contracts (assumed; C06) */
 void aws_priority_queue_node_init(struct aws_priority_queue_node *node)
@@ -173,7 +184,19 @@ __CPROVER_assigns(g_q_ntop)
 __CPROVER_assigns(g_q_size > 0 : *item)
 __CPROVER_ensures(g_q_ntop == OLD(g_q_ntop) + 1)
 __CPROVER_ensures(RET == (g_q_size > 0 ? AWS_OP_SUCCESS : AWS_OP_ERR))
-__CPROVER_ensures(g_q_size > 0 ==> PEQ(*item, (void *)&g_q_top))
+__CPROVER_ensures(g_q_size > 0 ==> PEQ(*item, (void *)&g_q_slot[g_q_top_i]))
+;
+
+/* pop: hands out the element top() shows, marks its handle not-in-queue; the next top is a DIFFERENT task whose time is
+ * not smaller (heap order, C06) */
+int aws_priority_queue_pop(struct aws_priority_queue *queue, void *item)
+__CPROVER_requires(queue == &g_sc.timed_queue && g_q_size > 0 && g_q_top_i < TSK)
+__CPROVER_requires(__CPROVER_w_ok(item, sizeof(struct aws_task *)))
+__CPROVER_assigns(*(struct aws_task **)item, g_q_size, g_q_top_i, g_tk[g_q_top_i].priority_queue_node.current_index)
+__CPROVER_ensures(RET == AWS_OP_SUCCESS && g_q_size == OLD(g_q_size) - 1)
+__CPROVER_ensures(PEQ(*(struct aws_task **)item, &g_tk[OLD(g_q_top_i)]) && g_tk[OLD(g_q_top_i)].priority_queue_node.current_index == SIZE_MAX)
+__CPROVER_ensures(g_q_size > 0 ==> g_q_top_i < TSK && g_q_top_i != OLD(g_q_top_i) &&
+                                    g_tk[g_q_top_i].timestamp >= g_tk[OLD(g_q_top_i)].timestamp)
 ;
 
 /* remove by handle: succeeds iff the handle is in the queue; hands out the element the handle identifies (in the
@@ -213,8 +236,10 @@ __CPROVER_ensures(task->timestamp == 0 && task->node.next == NULL && task->node.
 void aws_task_run(struct aws_task *task, enum aws_task_status status)
 __CPROVER_requires(TS_IS_TASK(task) && TS_FN_OK(task))
 __CPROVER_requires(g_fn_req_detached ==> TS_UNLINKED(task))
-__CPROVER_assigns(TS_A_FN_LOG, *task)
+__CPROVER_assigns(TS_A_FN_LOG, g_st_bad, TS_A_TASK_BUT_FN(task))
 __CPROVER_ensures(TS_RAN_ONCE(task, status))
+/* running tally for callers that make many calls: some call had another status than g_expect_status */
+__CPROVER_ensures(g_st_bad == (OLD(g_st_bad) || (int)status != g_expect_status))
 ;
 
 /* ---------------------------------------------------------------- schedule_now */
@@ -295,7 +320,7 @@ __CPROVER_requires(TS_LINKED(task) ==> TS_IS_PLACE(task->node.next) && TS_IS_PLA
                                        TS_HANDLE(task) == SIZE_MAX)
 __CPROVER_requires(!TS_LINKED(task) ==> task->node.prev == NULL && (TS_SCHEDULED(task) ? TS_IN_HEAP(task) : TS_HANDLE(task) == SIZE_MAX))
 __CPROVER_requires(g_fn_req_detached)
-__CPROVER_assigns(TS_A_FN_LOG, *task)
+__CPROVER_assigns(TS_A_FN_LOG, g_st_bad, TS_A_TASK_BUT_FN(task))
 __CPROVER_assigns(TS_LINKED(task) : task->node.next->prev, task->node.prev->next)
 __CPROVER_assigns(!TS_LINKED(task) && TS_SCHEDULED(task) : g_q_nremove, g_q_removed_bp, g_q_removed_ok, g_q_size)
 __CPROVER_ensures(TS_RAN_ONCE(task, AWS_TASK_STATUS_CANCELED))
@@ -324,7 +349,8 @@ bool aws_task_scheduler_has_tasks(const struct aws_task_scheduler *scheduler, ui
 __CPROVER_requires(scheduler == &g_sc && (next_task_time == NULL || next_task_time == &g_next_out))
 __CPROVER_requires(TS_IS_PLACE(g_sc.asap_list.head.next))
 __CPROVER_requires(g_sc.timed_list.head.next == &g_sc.timed_list.tail || TS_IS_TNODE(g_sc.timed_list.head.next))
-__CPROVER_requires(g_q_size > 0 ==> TS_IS_TASK(g_q_top))
+__CPROVER_requires(g_q_size > 0 ==> g_q_top_i < TSK)
+__CPROVER_requires(TS_SLOTS_OK)
 /* the arbitrary pending task: where it is, and what the invariants of its container say about it */
 __CPROVER_requires(g_on ==> TS_IS_TASK(g_w) && (g_w_asap || g_w_list || g_w_heap))
 __CPROVER_requires(g_on && g_w_asap ==> TS_ASAP_NONEMPTY)
@@ -428,6 +454,83 @@ __CPROVER_ensures(!g_ra_bad)
 __CPROVER_ensures(g_qc_calls == OLD(g_qc_calls) + 1 && !g_qc_after_pending)
 __CPROVER_ensures(g_cu_valid ==> g_ht_calls == g_ra_calls - OLD(g_ra_calls) + 1 && !g_ht_last)
 __CPROVER_ensures(!g_cu_valid ==> g_ht_calls == 0 && g_ra_calls == OLD(g_ra_calls) && g_fn_calls == OLD(g_fn_calls))
+;
+
+/* ================================================================ s_run_all: decision logic over ABSTRACT containers
+ * (unit run_all_logic, units/C07/run_all_logic.c; unbounded).  The list operations that move tasks (swap_contents,
+ * pop_front, push_back) and the heap's top/pop are executable CLIENT MODELS there (plain doubly-linked-list / heap
+ * semantics, assumed: properties C09 / C06; the REAL list functions are used by every other unit and by the native
+ * whole-scheduler units; init / empty / begin are the real ones in this unit too):
+ *     g_asap_len, g_tl_len, g_run_len   lengths of the run-now FIFO, the overflow list, the private batch
+ *     g_tl_front_i, g_run_front_i       arena index of the front task of the overflow list / of the batch
+ * An arena task stands for "the task at the front"; what is behind it is summarised by the invariants the scheduler
+ * maintains and the contracts restate whenever a new front appears:
+ *     overflow list sorted              the new front's time is not smaller than the removed front's time
+ *     heap order                        the new top's time is not smaller than the popped top's time
+ *     listed tasks have idle handles    handle == SIZE_MAX (schedule_now/_future: node_init; pop: SIZE_MAX)
+ *     containers are disjoint           the fronts / the top are different tasks (a task is handed over only while it is
+ *                                       not pending)
+ * The property's clauses are PRECONDITIONS of the batch's push_back (asserted at every call in s_run_all):
+ * run-now tasks were moved first, the task's time is <= the run time (never early), and not smaller than the time of the
+ * task moved before it (time order).  The batch is consumed with pop_front only.  Task functions: invocation log, no
+ * re-entrancy in this unit (re-entrancy: cancel unit + native units). */
+size_t g_asap_len, g_tl_len, g_run_len, g_tl_front_i, g_run_front_i;
+uint64_t g_now, g_last_moved_ts;
+bool g_swapped, g_moved_any;
+size_t g_moved_timed;
+
+#define TS_L_ASAP(l) ((l) == &g_sc.asap_list)
+#define TS_L_TL(l) ((l) == &g_sc.timed_list)
+#define TS_L_RUN(l) (!TS_L_ASAP(l) && !TS_L_TL(l))
+#define TS_L_LEN(l) (TS_L_ASAP(l) ? g_asap_len : (TS_L_TL(l) ? g_tl_len : g_run_len))
+#define TS_TNODE_INDEX(n) (TS_POFF(n) / sizeof(struct aws_task))
+/* abstract state well-formed */
+#define TS_ABS_OK                                                                                                      \
+    ((g_tl_len > 0 ==> g_tl_front_i < TSK && TS_HANDLE(&g_tk[g_tl_front_i]) == SIZE_MAX) &&                            \
+     (g_run_len > 0 ==> g_run_front_i < TSK && TS_HANDLE(&g_tk[g_run_front_i]) == SIZE_MAX) &&                         \
+     (g_q_size > 0 ==> g_q_top_i < TSK) &&                                                                             \
+     (g_tl_len > 0 && g_q_size > 0 ==> g_tl_front_i != g_q_top_i) &&                                                   \
+     (g_run_len > 0 && g_q_size > 0 ==> g_run_front_i != g_q_top_i) &&                                                 \
+     (g_run_len > 0 && g_tl_len > 0 ==> g_run_front_i != g_tl_front_i))
+/* nothing moved so far is later than what is still waiting */
+#define TS_ABS_ORDER                                                                                                   \
+    (g_moved_any ==> (g_tl_len > 0 ==> g_last_moved_ts <= g_tk[g_tl_front_i].timestamp) &&                             \
+                      (g_q_size > 0 ==> g_last_moved_ts <= g_tk[g_q_top_i].timestamp))
+#define TS_A_ARENA_LINKS                                                                                               \
+    g_tk[0].node, g_tk[1].node, g_tk[2].node, g_tk[3].node, g_tk[0].priority_queue_node, g_tk[1].priority_queue_node,  \
+        g_tk[2].priority_queue_node, g_tk[3].priority_queue_node
+#define TS_A_ARENA_BUT_FN TS_A_TASK_BUT_FN(&g_tk[0]), TS_A_TASK_BUT_FN(&g_tk[1]), TS_A_TASK_BUT_FN(&g_tk[2]), TS_A_TASK_BUT_FN(&g_tk[3])
+#define TS_ALL_FN_OK (TS_FN_OK(&g_tk[0]) && TS_FN_OK(&g_tk[1]) && TS_FN_OK(&g_tk[2]) && TS_FN_OK(&g_tk[3]))
+
+/* Representation of the abstract lists in the REAL sentinels (so that the real aws_linked_list_init / _empty / _begin run
+ * unchanged): head.next is the front task's node, or the tail sentinel when the list is empty. */
+#define TS_HEADNEXT_OK(l, len, front_i) ((len) > 0 ? (l)->head.next == &g_tk[front_i].node : (l)->head.next == &(l)->tail)
+
+/* s_run_all (enforced under this name).  For a run at time `current_time` with status `status`:
+ *  - the run-now FIFO is emptied into the batch before anything else;
+ *  - timed tasks enter the batch only with time <= current_time, in non-decreasing time order (push_back preconditions);
+ *  - when the moves are over, neither the overflow list's front nor the heap's top is due (with sortedness / heap order:
+ *    no due task stays behind), and every task taken out of a container went into the batch;
+ *  - the function of every batch task is invoked exactly once, with `status`, after the task was unlinked
+ *    (aws_task_run's precondition); the batch is empty at the end; nothing else is invoked. */
+void ts_run_all_contract(struct aws_task_scheduler *scheduler, uint64_t current_time, enum aws_task_status status)
+__CPROVER_requires(scheduler == &g_sc && TS_SLOTS_OK && TS_ALL_FN_OK)
+__CPROVER_requires(TS_ABS_OK && g_fn_req_detached)
+__CPROVER_requires(TS_HEADNEXT_OK(&g_sc.timed_list, g_tl_len, g_tl_front_i))
+__CPROVER_requires(g_now == current_time && g_expect_status == (int)status && !g_st_bad && !g_swapped && !g_moved_any)
+__CPROVER_requires(g_asap_len > 0 ==> g_run_front_i < TSK && TS_HANDLE(&g_tk[g_run_front_i]) == SIZE_MAX &&
+                                       (g_q_size > 0 ==> g_run_front_i != g_q_top_i) && (g_tl_len > 0 ==> g_run_front_i != g_tl_front_i))
+__CPROVER_requires(g_asap_len < ((size_t)1 << 62) && g_tl_len < ((size_t)1 << 62) && g_q_size < ((size_t)1 << 62) && g_moved_timed == 0)
+__CPROVER_assigns(g_asap_len, g_tl_len, g_run_len, g_tl_front_i, g_run_front_i, g_q_size, g_q_top_i, g_q_ntop)
+__CPROVER_assigns(g_sc.asap_list.head.next, g_sc.asap_list.tail.prev, g_sc.timed_list.head.next)
+__CPROVER_assigns(g_last_moved_ts, g_swapped, g_moved_any, g_moved_timed, TS_A_FN_LOG, g_st_bad, TS_A_ARENA_BUT_FN)
+__CPROVER_ensures(g_asap_len == 0 && g_run_len == 0 && g_swapped)
+__CPROVER_ensures(TS_HEADNEXT_OK(&g_sc.timed_list, g_tl_len, g_tl_front_i) && g_sc.asap_list.head.next == &g_sc.asap_list.tail)
+__CPROVER_ensures(g_tl_len == 0 || g_tk[g_tl_front_i].timestamp > current_time)
+__CPROVER_ensures(g_q_size == 0 || g_tk[g_q_top_i].timestamp > current_time)
+__CPROVER_ensures(g_moved_timed == (OLD(g_tl_len) - g_tl_len) + (OLD(g_q_size) - g_q_size))
+__CPROVER_ensures(g_tl_len <= OLD(g_tl_len) && g_q_size <= OLD(g_q_size))
+__CPROVER_ensures(g_fn_calls == OLD(g_fn_calls) + OLD(g_asap_len) + g_moved_timed && !g_st_bad)
 ;
 
 #endif
